@@ -435,7 +435,7 @@ def Engine.open (d : Disk) : Except OpenErr Engine := do
   let segs ← st.segs.mapM (findSeg d.segStore)
   let maxSeg := segs.foldl (fun m g => max m g.id) 0
   let interner ← replayLabels committed
-  let (idmap, runs) ← replayGraph committed st.ckptTxid (IdMap.load d.i2e)
+  let (idmap, runs) ← replayGraph committed st.ckptTxid (IdMap.load (IdMap.readNodeTable d.i2e))
   pure { wal := d.wal, idmap, interner, runs := runs.reverse, segs, segStore := d.segStore,
          store := d.store, storeRoot := d.storeRoot, vecs := d.vecs,
          nextTxid := max (st.maxTxid + 1) 1, nextSegId := max (maxSeg + 1) 1,
